@@ -49,7 +49,7 @@ def run(ctx):
         ctx, sub="auth",
         mc=[("MC_Auth", "MC_Auth_basic.cfg" if q else "MC_Auth_basic_deep.cfg", dict(workers=4 if q else 8))],
         gen=[("AuthGen", "Gen_Auth_basic.cfg" if q else "Gen_Auth_basic_deep.cfg", dict(workers=1))],
-        trace=TRACE, random_n=4000 if q else 300000, post_gen=_post(ctx), nontrivial=_nontrivial,
+        trace=TRACE, random_n=20000 if q else 300000, post_gen=_post(ctx), nontrivial=_nontrivial,
         dedupe_key=lambda s: json.dumps(s, sort_keys=True), jobs=12)
     ran = sum(1 for o in obs if o["obs"].get("ran"))
     chal = sum(1 for o in obs if o["obs"].get("kind") == "basic" and not o["obs"].get("ran") and o["obs"].get("status") == 401)
